@@ -306,3 +306,151 @@ func TestC14_ProbeRegularFileDeferred(t *testing.T) {
 		known.Probe(t, "C14", "regular-file-deferred", reproduced, fmt.Sprintf("AsyncRead on a regular file issued at the dispatch limit completes with %q instead of the bytes it reads inline (epoll cannot poll regular files)", fmt.Sprint(p.err)))
 	})
 }
+
+// withFullFdTable fills the descriptor table (RLIMIT_NOFILE lowered, every free slot taken by /dev/null) while fn runs:
+// every descriptor allocation inside fn fails with EMFILE.
+func withFullFdTable(fn func()) error {
+	var old syscall.Rlimit
+	if err := syscall.Getrlimit(syscall.RLIMIT_NOFILE, &old); err != nil {
+		return err
+	}
+	maxFd := 0
+	for fd := range sysx.FdCensus() {
+		if fd > maxFd {
+			maxFd = fd
+		}
+	}
+	if err := syscall.Setrlimit(syscall.RLIMIT_NOFILE, &syscall.Rlimit{Cur: uint64(maxFd + 32), Max: old.Max}); err != nil {
+		return err
+	}
+	var fillers []int
+	for {
+		fd, err := syscall.Dup(devNull)
+		if err != nil {
+			break
+		}
+		fillers = append(fillers, fd)
+	}
+	defer func() {
+		for _, fd := range fillers {
+			_ = syscall.Close(fd)
+		}
+		_ = syscall.Setrlimit(syscall.RLIMIT_NOFILE, &old)
+	}()
+	fn()
+	return nil
+}
+
+// Chains of operations that complete immediately WITH AN ERROR and are re-issued from their own callbacks: accept
+// while the descriptor table is full (EMFILE), reads at end-of-file (peer closed / FIFO writer gone), writes on a
+// reset connection. They are immediate completions like any other: counted, bounded, deferred at the limit.
+func TestC14_ErrorChains(t *testing.T) {
+	rec := evid.For("C14")
+	vt.Check(t, 60, func(rt *rapid.T) {
+		w := newWorld(rt)
+		defer w.close()
+		w.quiesce = true
+		w.writeAfterError = true
+		kind := rapid.SampledFrom([]string{"accept-emfile", "read-eof-tcp", "read-eof-fifo", "write-after-reset", "mixed"}).Draw(rt, "kind")
+		L := rapid.IntRange(34, 150).Draw(rt, "len")
+		var objs []*wobj
+		var kinds []string
+		add := func(k objKind, opk string) {
+			o := w.addObject(k)
+			switch opk {
+			case "accept":
+				w.peerConnect(o)
+			case "read":
+				w.peerFault(o, "close")
+			case "write":
+				w.peerFault(o, "reset")
+				// let the RST arrive
+				for i := 0; i < 50; i++ {
+					if r, _ := sysx.PollFd(o.rawFd, sysx.POLLIN|sysx.POLLOUT, 10); r&(sysx.POLLERR|sysx.POLLHUP) != 0 {
+						break
+					}
+				}
+			}
+			objs = append(objs, o)
+			kinds = append(kinds, opk)
+		}
+		switch kind {
+		case "accept-emfile":
+			add(kListener, "accept")
+		case "read-eof-tcp":
+			add(kTCPDial, "read")
+		case "read-eof-fifo":
+			add(kFifoR, "read")
+		case "write-after-reset":
+			add(kTCPDial, "write")
+		default:
+			add(kListener, "accept")
+			add(kTCPAcc, "read")
+			add(kFifoR, "read")
+		}
+		w.checkNow()
+		done := 0
+		errs := 0
+		var issue func()
+		issue = func() {
+			if done+len(w.inflight()) >= L {
+				return
+			}
+			i := rapid.IntRange(0, len(objs)-1).Draw(rt, "pick")
+			p := w.startOp(objs[i], kinds[i], 8, nil, "chain")
+			if p == nil {
+				w.fail("link on %s could not be started", objs[i].name())
+			}
+		}
+		w.onComplete = func(p *wop) {
+			done++
+			if p.err != nil {
+				errs++
+			}
+			if w.depth > sonic.MaxCallbackDispatch+1 {
+				w.fail("completion callbacks nested %d deep in a chain of immediately failing %s operations (limit MaxCallbackDispatch+1 = %d)", w.depth, p.kind, sonic.MaxCallbackDispatch+1)
+				return
+			}
+			issue()
+		}
+		run := func() {
+			issue()
+			for polls := 0; w.problem == "" && done < L; polls++ {
+				if w.ioc.Dispatched != 0 {
+					w.fail("IO.Dispatched=%d with the stack unwound", w.ioc.Dispatched)
+					break
+				}
+				if len(w.inflight()) == 0 {
+					w.fail("chain stopped after %d of %d links", done, L)
+					break
+				}
+				if polls > L/32+3 {
+					w.fail("chain of %d immediately failing operations not finished after %d PollOne calls (%d done)", L, polls, done)
+					break
+				}
+				for _, p := range w.inflight() {
+					sysx.PollFd(p.o.rawFd, sysx.POLLIN|sysx.POLLOUT, 200)
+				}
+				w.pollOnce()
+			}
+		}
+		if kind == "accept-emfile" || kind == "mixed" {
+			if err := withFullFdTable(run); err != nil {
+				rt.Fatalf("INFRA: rlimit: %v", err)
+			}
+		} else {
+			run()
+		}
+		w.checkNow()
+		if w.maxDepth > sonic.MaxCallbackDispatch+1 {
+			rt.Fatalf("completion callbacks nested %d deep (limit %d) in a %s chain of %d links", w.maxDepth, sonic.MaxCallbackDispatch+1, kind, L)
+		}
+		if w.ioc.Dispatched != 0 {
+			rt.Fatalf("IO.Dispatched=%d after the chain", w.ioc.Dispatched)
+		}
+		if errs == 0 {
+			rt.Fatalf("INFRA: no link of the %s chain failed: the fault was not in place", kind)
+		}
+		rec.Case(fmt.Sprintf("err|%s|%d", kind, L), true, []string{"error-chain:" + kind}, map[string]any{"kind": kind, "chain_len": L, "failed_links": errs, "max_depth": w.maxDepth})
+	})
+}
